@@ -211,7 +211,10 @@ impl Scenario for C10 {
                 ops.extend(gen_suffix(rng, kind, 12));
                 spec.ops = ops;
                 // (na, kindA, nb, kindB): advance one side / both sides by different call shapes
-                spec.aux = match rng.below(6) {
+                spec.aux = match rng.below(9) {
+                    6 => vec![1, 1, 1, 2],                              // one next_u32 vs one next_u64 (same index, half flag differs on 64-bit buffered)
+                    7 => vec![3, 1, 2, 2],                              // three next_u32 vs two next_u64
+                    8 => vec![1, 1, 1, 3],                              // one next_u32 vs fill(8)
                     0 => vec![1, 1, 0, 1],                              // one side one next_u32 (half a word on 64-bit buffered)
                     1 => vec![rng.range(1, 15), 1, 0, 1],               // by d words inside the block
                     2 => vec![kind.block_words() as u64, 1, 0, 1],      // across one block
